@@ -846,23 +846,35 @@ func insertRestructuring(ctx *Ctx, r *Result) {
 		}
 		hdr := pa.Start
 		var S, N string
-		for name := range pa.Next {
-			_ = name
+		// loop-carried key and node by type (looked for on every segment that
+		// starts at this header: a segment need not mention both)
+		role := func(t *Term) bool {
+			if t.Op == "loopphi" && strings.HasSuffix(t.Name, "@"+hdr) {
+				if t.Type != nil && types.TypeString(t.Type, nil) == "string" {
+					S = t.Key()
+				} else if isNamedPtr(t.Type, pkgOrigins, "node") {
+					N = t.Key()
+				}
+			}
+			return false
 		}
-		// loop-carried key and node by type
-		for _, a := range pa.Atoms[pa.PreAt:] {
-			a.T.Mentions(func(t *Term) bool {
-				if t.Op == "loopphi" && strings.HasSuffix(t.Name, "@"+hdr) {
-					if t.Type != nil && types.TypeString(t.Type, nil) == "string" {
-						S = t.Key()
-					} else if isNamedPtr(t.Type, pkgOrigins, "node") {
-						N = t.Key()
+		for _, q := range paths {
+			if q.Start != hdr {
+				continue
+			}
+			for _, a := range q.Atoms[q.PreAt:] {
+				a.T.Mentions(role)
+			}
+			for _, e := range q.Effects[q.PreEff:] {
+				for _, a := range e.Args {
+					if a != nil {
+						a.Mentions(role)
 					}
 				}
-				return false
-			})
+			}
 		}
 		if S == "" || N == "" {
+			r.undecided("R1.8", "Tree.Insert {"+radixShort(pa)+"}", "cannot identify the loop-carried key and node")
 			continue
 		}
 		E := "call:slices.BinarySearch(" + N + ".edges, " + lastByte(S) + ")"
@@ -874,6 +886,14 @@ func insertRestructuring(ctx *Ctx, r *Result) {
 		sawG1, sawRest := false, false
 		split := false
 		for _, e := range pa.Effects[pa.PreEff:] {
+			// Insert only ever adds: an existing node is written through
+			// node.add and node.upsertEdge, never directly (a direct store
+			// could drop entries or descendants)
+			if (e.Kind == "store" || e.Kind == "mapset") && len(e.Args) > 0 {
+				if rt := e.Args[0].addrRoot(); rt == nil || rt.Op != "alloc" {
+					good, detail = false, "Insert writes "+e.Args[0].Key()+" directly, not through node.add / node.upsertEdge: entries or descendants of an existing node can be lost"
+				}
+			}
 			if e.Kind != "call" {
 				continue
 			}
